@@ -138,10 +138,25 @@ def run(ctx: common.Ctx):
                             dict(base, exception=None, per_tx=(2, 5), special=['sec', 'sec', 'start', 'stop', 'junction'], sec_near_start=0.6, coding_only=True))
     judge(ctx, res, 'special-codons')
     s3 = dict(ctx.coverage['worker_stats'])
+    # W>F reassignment on products with two or three tryptophans (planted clusters): every entry
+    # names each reassigned residue once, and the residue it names is an F
+    res = cv_checks.explore(ctx, ctx.n(110, 2000),
+                            dict(base, exception=None, per_tx=(1, 4), max_size=4, window=30, as_frac=0.0,
+                                 trp=1.0, coding_only=True, kw=dict(w2f_reassignment=True)))
+    judge(ctx, res, 'w2f-tryptophan-clusters')
+    s4 = dict(ctx.coverage['worker_stats'])
+    # transcripts without a known ORF: two SNVs in ONE codon, each synonymous alone and
+    # non-synonymous together, plus a third SNV in the same peptide
+    res = cv_checks.explore(ctx, ctx.n(110, 2000),
+                            dict(base, exception=None, per_tx=(0, 1), max_size=4, window=30, as_frac=0.0,
+                                 silent_pair=1.0, sec_near_start=0.0, context=0.0))
+    judge(ctx, res, 'synonymous-pair-in-one-codon')
+    s5 = dict(ctx.coverage['worker_stats'])
     res = cv_checks.explore(ctx, ctx.n(70, 1500),
                             dict(base, exception=None, per_tx=(1, 4), as_frac=1.0, nested_frac=1.0))
     judge(ctx, res, 'nested-in-splicing')
     ctx.coverage['worker_stats'] = {'trypsin-noexc': s1, 'lookahead-enzymes': s2, 'special-codons': s3,
+                                    'w2f-tryptophan-clusters': s4, 'synonymous-pair-in-one-codon': s5,
                                     'nested-in-splicing': ctx.coverage['worker_stats']}
     ctx.assumptions += [
         'PARTIAL: label bookkeeping of the traversal is not modelled; each emitted label is validated '
